@@ -1,4 +1,5 @@
 import Ivy.L1.Ledger
+import Ivy.L1.ProofsReach
 /-!
 # C18 — memory / descriptor hygiene (the part that is logic)
 
@@ -20,6 +21,21 @@ theorem resource_ledger (s' : St) (ops : List Op) (hr : run {} ops = some s') (h
 
 theorem books_exact (base : Res) (s s' : St) (ops : List Op) (h : Inv base s) (hr : run s ops = some s') : Inv base s' :=
   run_inv base s s' ops h hr
+
+/-- no out-of-bounds access to the poll back-end's arrays: in every reachable state of the loop machine
+(every method of the poll family, every user program and kernel answer) a descriptor's `index` points at a
+slot inside `pfds` that holds that descriptor (D4 was a violation of exactly this) -/
+theorem no_oob (m : Ivy.L1.Method) (ntimers : Nat) (timerfdAvail pwait2 : Bool) (evs : List Ivy.L1.Ev) (s' : Ivy.L1.St)
+    (h : Ivy.L1.Exec (Ivy.L1.St.init m ntimers timerfdAvail pwait2) evs s') (hP : s'.method.isEpoll = false) :
+    ∀ f i, (s'.fds f).index = some i → i < s'.pfds.length ∧ ∃ b, s'.pfds[i]? = some (f, b) :=
+  Ivy.L1.ProofsReach.poll_index_in_bounds m ntimers timerfdAvail pwait2 evs s' h hP
+
+/-- no stale kernel registration survives an unregister (epoll family): whatever the kernel is still asked
+to watch is a registered descriptor -/
+theorem no_stale_kernel_interest (m : Ivy.L1.Method) (ntimers : Nat) (timerfdAvail pwait2 : Bool) (evs : List Ivy.L1.Ev) (s' : Ivy.L1.St)
+    (h : Ivy.L1.Exec (Ivy.L1.St.init m ntimers timerfdAvail pwait2) evs s') (hE : s'.method.isEpoll = true) :
+    ∀ f, (s'.kint f).isSome = true → (s'.fds f).registered = true :=
+  Ivy.L1.ProofsReach.kernel_interest_registered m ntimers timerfdAvail pwait2 evs s' h hE
 
 /-- non-vacuity: two cycles, one per method family, with a kernel timer, radix growth and a raw event -/
 example : (run {} [.init true, .timerfdCreate, .ratGrow, .rawRegister, .rawUnregister, .deinit,
